@@ -1158,6 +1158,20 @@ def audit_cases():
                         "checkoutdir": [["checkoutdir", [["t", T], ["b", B]]]], "checktree": [["checktree", TEp]],
                         "addverify": [["add", True, [[T, 0]]], ["check", T]]}[query]
                 case(cls, f"protected-corrupt/{pattern}/{query}", ops)
+        # modes other than 0o644 / 0o444: the library trusts EXACTLY 0o444 (is_protected); a damaged object at
+        # 0o400 / 0o544 / 0o555 / 0o600 is not write-protected in the property's sense and must be rejected and
+        # dropped; an intact one passes and ends at 0o444 on a Local store
+        for mode in (0o400, 0o544, 0o555, 0o600):
+            pats = ("replace", "chmod", "append") if (cls == "local" and mode == 0o555) else \
+                ("replace", "chmod") if cls == "local" else ("replace",)
+            for pattern in pats:
+                for query in (("check", "exist", "checkout", "addverify") if cls == "local" else ("check", "checkout")):
+                    ops = [["add", None, [[T, 0], [B, 1]]], ["tamper", T, pattern, mode, 3]]
+                    ops += {"check": [["check", T], ["check", B], ["check", T]],
+                            "exist": [["exist", [B, T]], ["exist", [T]]],
+                            "checkout": [["checkout", T], ["checkoutdir", [["t", T], ["b", B]]]],
+                            "addverify": [["add", True, [[T, 0], [O, 4]]], ["check", T]]}[query]
+                    case(cls, f"mode={oct(mode)}/{pattern}/{query}", ops, state=(query != "exist"))
         # check_hash=False
         for pattern in ("append", "none"):
             ops = [["add", None, [[T, 0]]]]
@@ -1594,6 +1608,8 @@ def case_dimensions(c, tags):
     for op in c["ops"]:
         if op[0] == "tamper":
             d.append("tamper:" + op[2] + ("/kept-protected" if op[3] == 0o444 else ""))
+            if op[3] not in (None, 0o644, 0o444):
+                d.append("mode-after-change:" + oct(op[3]))
         if op[0] == "add":
             d.append("add:verify=" + str(op[1]))
         if op[0] == "xfer":
